@@ -80,6 +80,11 @@ CLAIMED = {
    text="Training.tla is the reference optimisation loop in exact rational arithmetic (weighted sum of condition losses, SGD with momentum on every learnable incl. inverse parameters and ascending adaptive point weights, StepLR with step frequency, validation as a stutter on learnable state). TLC model-checks the loop's invariants, enumerates configurations whose reference trajectory fits the 32-bit budget, and the trace monitor steps the log of real Solver + Trainer runs (which condition with which iteration index; every learnable and the learning rate after each batch and around validation) against the reference, bit for bit.",
    note="Trusted: TLC; float64 affine model and dyadic hyper-parameters so every learnable is an exact rational; Fraction.limit_denominator(2^24) in the driver. Bounded: N = 3 (quick) / 4 steps, <= 3 training conditions, SGD(+momentum)/StepLR only (Adam/LBFGS states are not exactly representable).",
    technique="TLA+ reference loop in rational arithmetic + stepwise TLC trace validation of real training runs", ref="5 C07"),
+ "C19": dict(
+   level="fault_enumeration",
+   text="Every interruption step k < N at which TrainerStateCheckpoint writes a file is enumerated by TLC together with the check interval and the C07 configuration (momentum and schedulers, inverse parameters, adaptive weights): the interrupted run's objects are discarded, fresh objects resume from the file and train to N, and TLC compares learnables, learning rate and momentum buffers with the reference loop of Training.tla after N steps (and with the uninterrupted real run); the files of WeightSaveCallback are loaded into freshly built models and compared with the reference initial / final / checked-step weights.",
+   note="Trusted: TLC, pytorch-lightning's resume path as installed; exact rationals as in C07. Bounded: N = 4, interval in {1,2}, all k in 1..3 with (k-1) mod interval = 0; weights_only = False.",
+   technique="crash-point enumeration by TLC + TLA+ rational reference loop + TLC trace validation of resumed real runs", ref="5 C19"),
 }
 PENDING_REASON = "check not built yet in this round (design in DESIGN.md section 5); not claimed"
 
